@@ -39,6 +39,8 @@ CLAIMS.update({
                 design="DESIGN.md section 5 C11"),
     "C14": dict(technique="static analysis: structural extraction of the rayon fold/map/reduce pipeline (identities are zero vectors, op is element-wise field addition), sibling agreement with the serial gadget and serial constructors, who-may-call rayon, captured-state write check over MIR (feature multithreaded)",
                 design="DESIGN.md section 5 C14"),
+    "C15": dict(technique="static analysis: algorithm-transcription rules (reconstructed terms, polynomial normal forms, loop/exit structure by dominance) against Canonne-Kamath-Steinke Algorithms 1-3, who-may-consume the RNG, per-type sensitivity terms and per-coordinate draw placement over MIR",
+                design="DESIGN.md section 5 C15"),
     "C19": dict(technique="static analysis: guard-relation/dominance, decision-table and sibling-agreement (shared layout expression) rules over MIR",
                 design="DESIGN.md section 5 C19"),
     "C20": dict(technique="static analysis: predicate-shape extraction (guard relations, quantifier form, closure bodies) and who-may-construct over MIR",
